@@ -275,6 +275,16 @@ func Harness_C11_stays_forgotten() {
 	if bLeft {
 		b.LeaveLocal()
 	}
+	// a delta datagram that answers a digest A sent before it forgot X arrives
+	// late: it must not bring X back (and could only bring back part of it)
+	if v.Choose("late-delta", 2) == 1 {
+		stale := digest{{ID: "x", Addr: "addr-x", Version: v.U64("stale.version")}}
+		x.Entries["k"] = Entry{Key: "k", Value: "v", Version: x.Version}
+		a.ApplyKnownDelta(b.Delta(stale, false))
+		_, back := a.nodes["x"]
+		v.Assert("C11/forgotten/late-delta-does-not-resurrect", !back)
+		v.Cover("late-delta")
+	}
 	a.ApplyDigest(b.Digest())
 	_, relearned := a.nodes["x"]
 	_, knowsB := a.nodes["b"]
